@@ -33,6 +33,15 @@ ASSUMPTIONS = [
 def build_case(case):
     spec = case["spec"]
     eng = build.mk_engine(spec)
+    for vi, v in enumerate(spec["inputs"]):
+        for ti, t in enumerate(v["terms"]):
+            if t.get("shared_from") is not None:
+                # one Term object registered in two input variables (terms hold no per-variable state): each
+                # proposition still reads the membership of *its* variable's value
+                sv, st_ = t["shared_from"]
+                eng.input_variables[vi].terms[ti] = eng.input_variables[sv].terms[st_]
+                for rb in eng.rule_blocks:
+                    rb.reload_rules(eng)
     out = eng.output_variables[0]
     ospec = spec["outputs"][0]
     imp = build.mk_norm("Minimum", "t")
@@ -152,6 +161,10 @@ def cases(draw):
     out["aggregation"] = draw(st.sampled_from(refmath.SNORMS + [None]))
     tn = [t["name"] for t in out["terms"]]
     out["seed"] = draw(st.lists(st.tuples(st.sampled_from(tn), gen.unit_degree()).map(list), max_size=4))
+    if len(inputs) >= 2 and draw(st.integers(0, 3)) == 0:
+        t0 = inputs[0]["terms"][0]
+        if all(t["name"] != t0["name"] for t in inputs[1]["terms"]):
+            inputs[1]["terms"].append(dict(t0, shared_from=[0, 0]))
     ivars = [(v["name"], [t["name"] for t in v["terms"]]) for v in inputs]
     ovars = [("Y", tn)]
     avars = ivars + (ovars if draw(st.integers(0, 2)) == 0 else [])
